@@ -33,7 +33,7 @@ func init() {
 		c.ruleLangEq("@immutable", "@mutable", "@constructor")
 		c.ruleAttach("@immutable", "@mutable", "@constructor")
 		c.rulePost("@constructor")
-		c.ruleReportGate()
+		c.ruleReportGate("immutable")
 	}, Explanation: "Every IMM report site: complete guard signature (upstream guards of the literal + guards along the forward flow of the value to the reporter) compared with the signature the statement dictates: immutable-index membership (+), @mutable (-), constructor exemption limited to the type's own package and keyed by the enclosing top-level function (-), alias-safe pointer-stripping type resolution, AST dispatch incl. Tok, receiver identity by object; no other restrictive guard. Walk: no pruning, root = every top-level declaration of every filtered file, no state carried between nodes/declarations/files, every list element visited. Indices built uniformly from local + imported annotations; annotation grammar and attachment of @immutable/@mutable/@constructor."})
 
 	registerProp(&propDef{ID: "C02", Rules: func(c *Ctx) {
@@ -47,7 +47,7 @@ func init() {
 		c.ruleLangEq("@constructor")
 		c.ruleAttach("@constructor")
 		c.rulePost("@constructor")
-		c.ruleReportGate()
+		c.ruleReportGate("constructor")
 	}, Explanation: "Every CTOR report site: guard signature = constructor-index membership (+), exemption = own package AND Match(enclosing top-level function) (-), alias-safe type resolution (pointer strip for literals), dispatch CompositeLit / new-call with one argument / var spec without initialiser, not blank, not pointer; no other restrictive guard; value reaches the reporter from every call site. Walk per top-level declaration, no pruning (nested literals), no walk state. Constructor-name list parsing (split/trim) and index construction."})
 
 	registerProp(&propDef{ID: "C03", Rules: func(c *Ctx) {
@@ -63,7 +63,7 @@ func init() {
 		c.ruleIterPackages()
 		c.ruleLangEq("@testonly")
 		c.ruleAttach("@testonly")
-		c.ruleReportGate()
+		c.ruleReportGate("testonly")
 	}, Explanation: "Every TONL report site: membership in the type/func/method index (+) with resolved-object provenance (direct calls resolved through TypesInfo.Uses to a package-level *types.Func), not in a _test.go file (-), ignore gate on the violation's own code and position before the per-file dedup (-), dedup keyed by package path and type name and created per file; dispatch per call path (CompositeLit; ValueSpec, Field; CallExpr forms). The only prune is below a FuncDecl whose own kind-specific index lookup matches (predicate summary). Index builders filter on the Kind discriminant."})
 
 	registerProp(&propDef{ID: "C04", Rules: func(c *Ctx) {
@@ -80,7 +80,7 @@ func init() {
 		c.ruleLangEq("@packageonly")
 		c.ruleAttach("@packageonly")
 		c.rulePost("@packageonly")
-		c.ruleReportGate()
+		c.ruleReportGate("packageonly")
 	}, Explanation: "Every PKGO report site: annotated (+), other package than the declaring one, NOT allowed by path AND NOT allowed by name (both queries on the same item key, last argument pass.Pkg.Path() resp. pass.Pkg.Name()), ignore gate with the site's own code constant and position, PKGO01 dedup keyed by path+name after the gate; per call path: SelectorExpr and Ident references resolved with ObjectOf to TypeName / Func with/without receiver. Union of all allow lists: builder adds every element of every annotation's AllowedPackages; container write-back on every path; declaring package always in the list; no pruning of selector operands."})
 
 	registerProp(&propDef{ID: "C06", Rules: func(c *Ctx) {
@@ -93,10 +93,12 @@ func init() {
 		c.ruleIndexSrc()
 		c.ruleLangEq("@immutable", "@testonly", "@mutable", "@implements", "@constructor", "@packageonly")
 		c.rulePost("@constructor", "@packageonly")
-		c.ruleSitesIMM()
-		c.ruleSitesCTOR()
-		c.ruleSitesTONL()
-		c.ruleSitesPKGO()
+		c.only([]string{"IMMUTABLE-INDEX", "MUTABLE-FIELD", "CTOR-EXEMPTION", "CONSTRUCTOR-INDEX", "TYPES-INDEX", "FUNCS-INDEX", "METHODS-INDEX", "ANNOTATED", "ALLOWED-BY", "FLOOR"}, func() {
+			c.ruleSitesIMM()
+			c.ruleSitesCTOR()
+			c.ruleSitesTONL()
+			c.ruleSitesPKGO()
+		})
 	}, Explanation: "Fact discipline: every analyzer with FactTypes exports, unconditionally and before any live return, a fact of its own type holding the complete PackageAnnotations; ResultOf uses are in Requires with matching ResultType; fact types are gob-encodable field by field (all exported, same shape as PackageAnnotations); builders are instantiated with the calling analyzer's fact type; facts are imported only over pass.Pkg.Imports(), every import is consulted (a missing fact skips one import only), local and imported annotations are processed by the same statements; no object facts / AllPackageFacts. Plus the grammar/argument languages that carry annotation values and the per-family guard signatures that consume them (package-path keyed, no local-only condition except the documented own-package constructor exemption)."})
 
 	registerProp(&propDef{ID: "C07", Rules: func(c *Ctx) {
@@ -128,7 +130,7 @@ func init() {
 		c.ruleSkipShape()
 		c.ruleCfgSrc()
 		c.ruleConfigWiring()
-		c.ruleSitesTONL()
+		c.only([]string{"NOT-TEST-FILE", "FLOOR"}, func() { c.ruleSitesTONL() })
 		c.rulePosInFile()
 	}, Explanation: "pass.Files is read in exactly one place, Config.FilterFiles, which yields every file for which ShouldSkipFile is false; ShouldSkipFile is true exactly for (name contains an exclude-paths entry) or (!ScanTests and name ends in _test.go), on the file's own name; every reader/checker filters with the effective configuration of its own pass; every TONL site is additionally guarded by !HasSuffix(name,\"_test.go\") regardless of configuration; every diagnostic position is Pos() of a node of a filtered file (or of an annotation read from one)."})
 
@@ -184,24 +186,25 @@ func init() {
 		c.ruleTypeIdent()
 		c.ruleLangEq("@implements")
 		c.ruleAttach("@implements")
-		c.ruleReportGate()
+		c.ruleReportGate("implements")
 	}, Explanation: "Cascade of the three IMPL sites (IMPL01 iff the annotation's qualifier is unresolved; IMPL02 iff resolved and the key PackageFullPath.InterfaceName is not among the loaded interfaces; IMPL03 iff both found and checkImplementation(type, interface, ann.IsPointer) is non-empty, listing exactly that result); qualifier resolution: the package recorded for an import spec is PkgNameOf(spec).Imported(), resolution order alias > declared name > exact path > last path element, empty qualifier = current package; shape of the existing structural matcher (all four components compared, counts and every pair compared, every interface method examined, & = all methods / no & = value receivers). TYPE-IDENT / METHOD-SET (the verdict must be decided by go/types identity and the real method set of T, not by renderings of types and a receiver-kind filter) fail on today's tree: six recorded known findings (D11); any other violation is reported."})
 }
 
 func init() {
 	registerProp(&propDef{ID: "C09", Rules: func(c *Ctx) {
-		c.ruleSitesIMM()
-		c.ruleSitesCTOR()
-		c.ruleSitesTONL()
-		c.ruleSitesPKGO()
-		c.ruleSitesIMPL()
+		c.only([]string{"IMMUTABLE-INDEX", "CONSTRUCTOR-INDEX", "TYPES-INDEX", "FUNCS-INDEX", "METHODS-INDEX", "ANNOTATED", "PACKAGE-NOT-FOUND", "PACKAGE-FOUND", "INTERFACE-", "TYPE-FOUND", "MISSING-METHODS", "FLOOR"}, func() {
+			c.ruleSitesIMM()
+			c.ruleSitesCTOR()
+			c.ruleSitesTONL()
+			c.ruleSitesPKGO()
+			c.ruleSitesIMPL()
+		})
 		c.ruleIndexSrc()
 		c.ruleIterPackages()
 		c.ruleContainersEmptyFalse()
 		c.ruleLangEq()
 		c.ruleAttach(allKeywords...)
 		c.ruleNoWalkInReader()
-		c.ruleReportGate()
 	}, Explanation: "Every report site of all five checkers is control-dependent on a positive membership test in an index (or iterates the @implements annotations); every index entry originates from an annotation list of the local package or of a directly imported fact; annotation lists are extended only with non-nil results of the parse functions; the parse functions recognise exactly the documented grammar (automata) on doc comments of top-level declarations only (no AST walk, no trailing comments); the containers answer false when empty. Hence without a recognised annotation in the package and its direct imports no report site is reachable."})
 	registerProp(&propDef{ID: "C11", Rules: func(c *Ctx) {
 		c.ruleNoConcurrency()
@@ -218,20 +221,24 @@ func init() {
 		c.rulePrunePred()
 		c.rulePosCompare()
 		c.ruleReaderState()
-		c.ruleSitesIMM()
-		c.ruleSitesCTOR()
-		c.ruleSitesTONL()
-		c.ruleSitesPKGO()
+		c.only([]string{"RECEIVER-BY-OBJECT", "CALLEE-BY-OBJECT", "CTOR-EXEMPTION", "DEDUP", "FLOOR"}, func() {
+			c.ruleSitesIMM()
+			c.ruleSitesCTOR()
+			c.ruleSitesTONL()
+			c.ruleSitesPKGO()
+		})
 		c.ruleAttach("@immutable", "@testonly", "@mutable", "@implements", "@constructor", "@packageonly")
 	}, Explanation: "Nothing a walk callback (or what it calls) writes outlives the visit of one node except append-only accumulators and per-file dedup maps created inside the file loop; context fields read during a walk are re-assigned on every path of each iteration before the walk; walk roots are all top-level declarations / whole filtered files with no filter in between; no pruning except the @testonly FuncDecl prune decided on the declaration's own name; ordered position comparisons and line/column numbers occur only in scope computation and rendering; readers carry no state between declarations (doc selection per spec); identity is by object (receiver, direct callee), not by spelling."})
 	registerProp(&propDef{ID: "C13", Rules: func(c *Ctx) {
 		c.ruleAliasAll()
 		c.ruleTypeInfoHelpers()
 		c.ruleNoSyntacticType()
-		c.ruleSitesIMM()
-		c.ruleSitesCTOR()
-		c.ruleSitesTONL()
-		c.ruleSitesPKGO()
+		c.only([]string{"TYPE-RESOLVE", "NOT-POINTER", "FLOOR"}, func() {
+			c.ruleSitesIMM()
+			c.ruleSitesCTOR()
+			c.ruleSitesTONL()
+			c.ruleSitesPKGO()
+		})
 	}, Explanation: "Every assertion from types.Type to a concrete go/types node in product code is made on an un-aliased operand (types.Unalias / Underlying / Func.Type) - seven reviewed exceptions in package implements with one line of reason each, two of them part of known finding KF-C05-1; the pointer strip happens on the un-aliased value and its element is un-aliased again (sites and util helpers); use-site types come from TypesInfo, the only spelling-based type reader is the receiver of a method declaration."})
 }
 
